@@ -40,6 +40,10 @@ def make_plan(tier):
              checkers=["faults", "custom"], every=8 if q else 2, offset=2 if q else 1, metric=1, ball=True),
         dict(name="exact", dim=2, target=[7, -12], scale=1.0, exact=True, checkers=["code", "custom"],
              every=2 if q else 1, offset=0, metric=1, ball=True),
+        # leave-one-out as it is run in practice: the data base is its own target Db (cases with a sample
+        # flagged "is the target"; the other cases run with a separate target Db as elsewhere)
+        dict(name="self", dim=2, coeffs=[1, 1], angles=[20], target=[2.5, 4.75], scale=1.0, self=True,
+             checkers=["faults", "custom"], every=2 if q else 1, offset=1 if q else 0, metric=1, ball=True),
         dict(name="grid", dim=2, coeffs=[0.5, 1.5], angles=[60], target=[5, 5], scale=1.0, grid=True,
              checkers=["code", "custom"], every=8 if q else 3, offset=6 if q else 1, metric=0, ball=False),
         dict(name="iso3", dim=3, coeffs=[1, 1, 1], target=[1.5, -2.5, 40], scale=1.0, checkers=["code", "custom"],
@@ -322,6 +326,10 @@ def neigh_part(ck, tier, exe, B, plan):
     nrun = {c["name"]: 0 for c in cfgs}
     nball = {c["name"]: 0 for c in cfgs}
     nball_agree = 0
+    nball_clean = 0
+    nball_xv = {"leave-one-out": 0, "k-fold": 0}     # ball runs whose pre-selection holds an excluded sample
+    nball_xv_agree = {"leave-one-out": 0, "k-fold": 0}
+    nself = {"plain": 0, "ball": 0}
     nskip = ncmp = 0
     samples = Samples()
     dis = Disagreements()
@@ -343,6 +351,9 @@ def neigh_part(ck, tier, exe, B, plan):
                     continue
                 nrun[cfg["name"]] += 1
                 ncmp += 1
+                if o.get("self"):
+                    nself["plain"] += 1
+                    nself["ball"] += len(o.get("b", []))
                 if o["r"] != exp:
                     dis.add({"kind": "neigh", "cfg": cfg["name"], "search": "plain", "observed_empty": o["r"] == []},
                             c["id"], lambda: replay_of(c, cfg, o, exp))
@@ -353,6 +364,13 @@ def neigh_part(ck, tier, exe, B, plan):
                     bi = c["ball"][cfg["metric"] - 1]
                     nball[cfg["name"]] += 1
                     ncmp += 1
+                    xmode = "k-fold" if c["kfold"] else "leave-one-out"
+                    if bi["cause"] == "none":
+                        nball_clean += 1          # the model of the ball path gives the definition here
+                    if bi["xin"]:
+                        nball_xv[xmode] += 1
+                        if bi["cause"] == "none":
+                            nball_xv_agree[xmode] += 1
                     if r != exp:
                         dis.add({"kind": "neigh", "cfg_metric": metric_names[cfg["metric"] - 1], "search": "ball",
                                  "cause": bi["cause"], "matches_model": r == [x - 1 for x in bi["model"]]},
@@ -368,8 +386,14 @@ def neigh_part(ck, tier, exe, B, plan):
     for c in cfgs:
         if c.get("ball") and nball[c["name"]] == 0:
             raise Broken("ball search never compared in configuration %s" % c["name"])
-    if nball_agree == 0:
-        raise Broken("ball search never agreed with the definition: the side condition is vacuous or the binding is wrong")
+    if nball_clean == 0:
+        raise Broken("no ball-search run where the model of the ball path yields the definition: the side condition is vacuous")
+    for k in nball_xv:
+        if nball_xv[k] == 0 or nball_xv_agree[k] == 0:
+            raise Broken("ball search x %s cross-validation never exercised (pre-selection holding an excluded sample: "
+                         "%s runs, %s where the definition is expected from the ball path)" % (k, nball_xv, nball_xv_agree))
+    if nself["plain"] == 0 or nself["ball"] == 0:
+        raise Broken("no run with the data base as its own target: %s" % nself)
     if nskip > 0.2 * max(1, ncmp):
         raise Broken("too many skipped runs (%d of %d)" % (nskip, ncmp))
     for _, smp in samples.items:
@@ -380,6 +404,10 @@ def neigh_part(ck, tier, exe, B, plan):
     ck.cov["neigh_runs_per_config"] = nrun
     ck.cov["ball_runs_per_config"] = nball
     ck.cov["ball_runs_equal_to_definition"] = nball_agree
+    ck.cov["ball_runs_with_excluded_sample_in_preselection"] = nball_xv
+    ck.cov["ball_runs_with_excluded_sample_in_preselection_where_ball_path_must_give_definition"] = nball_xv_agree
+    ck.cov["ball_runs_where_ball_path_must_give_definition"] = nball_clean
+    ck.cov["runs_with_db_as_its_own_target"] = nself
     ck.cov["ball_side_condition_cases_per_metric"] = dict(zip(metric_names, nside))
     ck.cov["neigh_runs_skipped_unrealisable"] = nskip
     ck.add("traces_validated_against_impl", ncmp)
@@ -537,7 +565,8 @@ def run(tier):
         "the sector of a sample is the one of (target - sample) in the anisotropy frame, numbered counter-clockwise from the "
         "first axis (read from NeighMoving::_movingSectorDefine; the documentation does not number the sectors)",
         "nmini is tested on the qualifying samples (before the sector quotas), as the property states",
-        "ball search is compared only when the nmaxi Euclidean-nearest samples are all admissible (condition computed by TLC "
+        "ball search is compared only when the nmaxi Euclidean-nearest samples, leaving aside those that the "
+        "cross-validation excludes, are all admissible and nmini <= nmaxi (condition computed by TLC "
         "from the Euclidean lengths of the concretisation)",
         "process-wide default space is set to the dimension of each configuration before use"]
     return ck.finish()
